@@ -47,7 +47,11 @@ Decided:
          and cached_modify_time=request.if_modified_since, the application its two default types (not swapped), the route its
          mimetype; the constructors store exactly their arguments; cache_timeout defaults to a positive number (client
          caching is on by default -- otherwise the 304 branch is dead); the application's default types are those of
-         build_file_response.
+         build_file_response.  Sibling agreement: the two endpoints hand build_file_response the same function of the request
+         / the configuration as cached_modify_time and cache_timeout (compared as sets of terminal sources).  Validator round
+         trip: no test that decides which value is handed over as cached_modify_time reads the clock (now / utcnow / today /
+         time.time) -- Last-Modified is the file's own time (R14.f, R14.k), so what the 200 branch sends must be accepted by
+         the 304 branch when echoed, also for a file dated ahead of the server's clock.
   R14.n  the body is the whole file (c14_faith.py): peek_file seeks back to the position tell() gave before the read on
          every normal path to its exit; build_file_response itself never reads from / moves the handle before it is wrapped.
   R14.b  also covers every HTTP error raised by a function of the module the endpoints call (public helpers).
@@ -62,10 +66,16 @@ file / the compared mtime comes from (_sources: all bindings, flow-insensitive);
 classes>`` (_caught_names, also ``(A,) + _OTHERS``); ``exc = Forbidden(..); raise exc``; module-level constants for the route pattern, the
 status code and ``is_breaking``; ``mtime <= t`` written as ``t >= mtime`` or as the else-branch of ``mtime > t``; the
 search loop written with a guard + continue or as ``next((p for .. if isfile(p)), None)``; keyword or positional
-arguments.  A value or test that moved into a function of the package which is *not* dissolved (public name) is an
+arguments.  A *value* that comes from a function of the package which is not dissolved (a public helper: ``self.m(..)``,
+``f(..)``) is judged through what that helper can return (_followed_returns: the sources of every ``return``, None when it can
+run off its end, parameters replaced by the arguments of the call -- read, never run), i.e. exactly as if it were written in
+line; where that is not sound (decorated / variadic / generator callee, a returned expression reading the callee's locals,
+re-bound parameters, loops or try at the end of the body) and for a *test* that moved into such a function it is an
 ANALYSIS-ERROR ("not followed"), not a violation; a private function nothing refers to any more is not on the serving path.
 """
 import ast
+import builtins
+import copy
 
 from ..core import AnalysisError, norm, short
 from .common import (cfg_of, fkey, conds, has_cond, cond_texts, stmts_of, walk_body, call_tail, call_name,
@@ -156,19 +166,217 @@ def _internal_callee(fi, e):
     return None
 
 
+def _callee_info(fi, call):
+    """FuncInfo of the function of the package ``call`` reaches (``f(..)`` at module level, ``self.m(..)`` through the MRO)."""
+    f = call.func
+    repo = fi.mod.repo
+    if isinstance(f, ast.Name) and f.id not in _locals_of(fi):
+        kind, m, obj = repo.resolve(fi.mod, f.id)
+        if kind == 'func' and m is not None and not m.external:
+            return obj
+    if isinstance(f, ast.Attribute) and isinstance(f.value, ast.Name) and f.value.id in ('self', 'cls') and fi.cls is not None:
+        return repo.find_method(fi.cls, f.attr)
+    return None
+
+
+def _falls_off(body):
+    """A block can run off its end (True / False); None: not decided here (loops, try, match)."""
+    if not body:
+        return True
+    last = body[-1]
+    if isinstance(last, (ast.Return, ast.Raise)):
+        return False
+    if isinstance(last, ast.If):
+        a, b = _falls_off(last.body), _falls_off(last.orelse)
+        return True if (a is True or b is True) else (None if (a is None or b is None) else False)
+    if isinstance(last, ast.With):
+        return _falls_off(last.body)
+    if isinstance(last, (ast.For, ast.AsyncFor, ast.While, ast.Try, ast.Match)) or (hasattr(ast, 'TryStar') and isinstance(last, ast.TryStar)):
+        return None
+    return True
+
+
+_FOLLOWING = []
+_BUILTIN_NAMES = frozenset(dir(builtins))
+
+
+def _followed_returns(fi, call):
+    """What a call of a function of the package that the loader did not dissolve (a public helper: ``self.m(..)``, ``f(..)``)
+    can evaluate to, *in the caller's terms*: the sources of every ``return`` of the callee (None when it can run off its
+    end), its parameters replaced by the argument expressions of this call (defaults for the ones not passed).  The
+    helper is read, not run.  None when the binding or the body is outside what is followed soundly: a decorated /
+    generator / async / variadic callee, ``*`` / ``**`` at the call, a parameter that is re-bound, a returned expression that
+    reads a local of the callee (it would mean nothing in the caller), a name that the caller binds itself, a callee of
+    another module reading its globals, recursion."""
+    if not isinstance(call, ast.Call):
+        return None
+    try:
+        cal = _callee_info(fi, call)
+    except AnalysisError:
+        raise
+    except Exception:
+        return None
+    if cal is None or cal is fi or any(c is cal for c in _FOLLOWING) or len(_FOLLOWING) > 3:
+        return None
+    node = cal.node
+    a = node.args
+    if not isinstance(node, ast.FunctionDef) or node.decorator_list or a.vararg or a.kwarg:
+        return None
+    for n in walk_body(node):
+        if isinstance(n, (ast.Yield, ast.YieldFrom, ast.Await, ast.Global, ast.Nonlocal, ast.NamedExpr)):
+            return None
+    if any(isinstance(x, ast.Starred) for x in call.args) or any(k.arg is None for k in call.keywords):
+        return None
+    pos = [x.arg for x in a.posonlyargs + a.args]
+    bind = {}
+    if isinstance(call.func, ast.Attribute):
+        if cal.cls is None or not pos:
+            return None
+        bind[pos[0]] = call.func.value          # self.m(..): the receiver
+        pos = pos[1:]
+    elif cal.cls is not None:
+        return None
+    if len(call.args) > len(pos):
+        return None
+    for p, v in zip(pos, call.args):
+        bind[p] = v
+    names = set(pos) | set(x.arg for x in a.kwonlyargs)
+    for k in call.keywords:
+        if k.arg not in names or k.arg in bind or k.arg in [x.arg for x in a.posonlyargs]:
+            return None
+        bind[k.arg] = k.value
+    allpos = a.posonlyargs + a.args
+    defaults = dict(zip([x.arg for x in allpos[len(allpos) - len(a.defaults):]], a.defaults))
+    defaults.update((x.arg, d) for x, d in zip(a.kwonlyargs, a.kw_defaults) if d is not None)
+    for p in names:
+        if p not in bind:
+            d = defaults.get(p)
+            if not isinstance(d, ast.Constant):       # (a default is evaluated where the helper is defined)
+                return None
+            bind[p] = d
+    params = set(bind)
+    if params != set(cal.params()):
+        return None
+    stored = set(n.id for n in walk_body(node) if isinstance(n, ast.Name) and isinstance(n.ctx, (ast.Store, ast.Del))) | \
+        set(n.name for n in walk_body(node) if isinstance(n, (ast.ExceptHandler, ast.FunctionDef, ast.AsyncFunctionDef, ast.ClassDef))
+            and n.name)
+    if stored & params:
+        return None
+    own = _locals_of(cal) - params
+    mine = _locals_of(fi)
+    falls = _falls_off(node.body)
+    if falls is None:
+        return None
+    vals = []
+    _FOLLOWING.append(cal)
+    try:
+        for r in returns_of(cal):
+            for s in (_srcs(cal, r.value) if r.value is not None else [ast.copy_location(ast.Constant(value=None), r)]):
+                if not isinstance(s, ast.expr):
+                    return None
+                if _is_param(s):
+                    vals.append(bind[s.id])
+                    continue
+                for n in ast.walk(s):
+                    if isinstance(n, (ast.Lambda, ast.ListComp, ast.SetComp, ast.DictComp, ast.GeneratorExp)):
+                        return None
+                    if isinstance(n, ast.Name) and n.id not in params:
+                        if n.id in own or n.id in mine or (cal.mod is not fi.mod and n.id not in _BUILTIN_NAMES):
+                            return None
+
+                class Sub(ast.NodeTransformer):
+                    def visit_Name(self, n):
+                        return copy.deepcopy(bind[n.id]) if n.id in params and isinstance(n.ctx, ast.Load) else n
+                vals.append(ast.fix_missing_locations(ast.copy_location(Sub().visit(copy.deepcopy(s)), call)))
+    finally:
+        _FOLLOWING.pop()
+    if falls:
+        vals.append(ast.copy_location(ast.Constant(value=None), call))
+    return vals or None
+
+
 def _all_srcs(fi, expr, pred, known=()):
     """Every source of ``expr`` satisfies ``pred``.  A source produced by a function of the package that the loader
-    did not dissolve (and that is not one of the ``known`` primitives) cannot be judged here: analysis error."""
+    did not dissolve (and that is not one of the ``known`` primitives) is judged through what that function can return
+    (_followed_returns: every returned value, in the caller's terms, must satisfy ``pred`` -- exactly what would be asked
+    had the helper been written in line); where that cannot be followed soundly: analysis error."""
     ss = _srcs(fi, expr) if expr is not None else []
     ok = bool(ss)
     for x in ss:
         if isinstance(x, ast.expr) and pred(x):
             continue
-        ok = False
         callee = _internal_callee(fi, x) if isinstance(x, ast.expr) else None
         if callee is not None and callee not in known:
-            raise AnalysisError('%s: value %s comes from %s(), which is not followed' % (fi.qualname, short(expr), callee))
+            vals = _followed_returns(fi, x)
+            if vals is None:
+                raise AnalysisError('%s: value %s comes from %s(), which is not followed' % (fi.qualname, short(expr), callee))
+            if all(_all_srcs(fi, v, pred, known) for v in vals):
+                continue
+        ok = False
     return ok
+
+
+def _terminal_values(fi, expr, depth=0):
+    """The normalised terminal sources of ``expr`` (through plain copies of locals and through the returns of helpers
+    that are followed), as a set of texts in the caller's terms; a binding statement that is not an expression
+    contributes '<stmt>'.  AnalysisError when a helper on the way is not followed."""
+    out = set()
+    for x in (_srcs(fi, expr) if expr is not None else []):
+        if not isinstance(x, ast.expr):
+            out.add('<stmt>')
+            continue
+        callee = _internal_callee(fi, x)
+        if callee is not None and depth < 4:
+            vals = _followed_returns(fi, x)
+            if vals is None:
+                raise AnalysisError('%s: value %s comes from %s(), which is not followed' % (fi.qualname, short(expr), callee))
+            for v in vals:
+                out |= _terminal_values(fi, v, depth + 1)
+            continue
+        out.add('<parameter %s>' % x.id if _is_param(x) else norm(x))
+    return out
+
+
+def _selection_tests(fi, expr, seen=None, depth=0):
+    """Every test whose outcome decides *which* value ``expr`` stands for: the path conditions of the statements binding
+    the locals it is copied through, and of the ``return`` statements of the helpers it is followed into (and of what those
+    return).  -> [(FuncInfo the test belongs to, test expression)]"""
+    seen = set() if seen is None else seen
+    out = []
+    if depth > 6 or expr is None:
+        return out
+    if isinstance(expr, ast.Name) and (fi, expr.id) not in seen and assigned_value(fi.node, expr.id):
+        seen.add((fi, expr.id))
+        for st, val, idx in assigned_value(fi.node, expr.id):
+            out += [(fi, t) for t, p in _conds(fi, st)]
+            if isinstance(val, ast.expr) and idx is None:
+                out += _selection_tests(fi, val, seen, depth + 1)
+    elif isinstance(expr, ast.Call) and _internal_callee(fi, expr) is not None and _followed_returns(fi, expr) is not None:
+        cal = _callee_info(fi, expr)
+        for r in returns_of(cal):
+            out += [(cal, t) for t, p in _conds(cal, r)]
+            if r.value is not None:
+                out += _selection_tests(cal, r.value, seen, depth + 1)
+    return out
+
+
+CLOCK_CALLS = {'utcnow', 'now', 'today', 'time', 'time_ns', 'monotonic', 'perf_counter'}
+
+
+def _reads_clock(fi, test):
+    """The test reads the server's clock: a call of now() / utcnow() / today() / time.time() in it, or in what a local it
+    names is bound to.  -> the call or None."""
+    todo, seen = [test], set()
+    while todo:
+        e = todo.pop()
+        for n in ast.walk(e):
+            if isinstance(n, ast.Call) and call_tail(n) in CLOCK_CALLS:
+                if call_tail(n) in ('utcnow', 'now', 'today') or isinstance(n.func, ast.Name) or norm(n.func).startswith('time.'):
+                    return n
+            if isinstance(n, ast.Name) and isinstance(n.ctx, ast.Load) and n.id not in seen and n.id not in fi.params():
+                seen.add(n.id)
+                todo += [v for st, v, idx in assigned_value(fi.node, n.id) if isinstance(v, ast.expr)]
+    return None
 
 
 def _argn(fi, call, name, pos):
